@@ -348,6 +348,8 @@ func (w *world) call(cs callSpec, q string) fsx.Call {
 		return fsx.Call{Op: "Rename", A: q, B: w.R + "/zz"}
 	case "Rename(f,q)":
 		return fsx.Call{Op: "Rename", A: w.R + "/f", B: q}
+	case "Rename(d,q/n)":
+		return fsx.Call{Op: "Rename", A: w.R + "/d", B: q + "/n"}
 	case "Lchown":
 		return fsx.Call{Op: "Lchown", A: q, N: 1001, M: 1001}
 	case "Chown":
